@@ -1,10 +1,11 @@
 (* Object/Extract.v — extraction of the executable models for the correspondence runner.
    ExtrOcamlBasic only: bool, option, unit, list, prod, sumbool, sumor -> OCaml natives; N/positive/nat stay Coq datatypes. *)
 From Coq Require Import Extraction ExtrOcamlBasic.
-From Object Require Import ObjSeg Store.
+From Object Require Import ObjSeg Store Fetch.
 Extraction Language OCaml.
 Extraction "object_model.ml"
   produce produce_obs_ok segments chunks pSegmentSize
   name_inner name_eqb comp_enc bytes_cmp
   ms_init bs_init ss_init ms_step bs_step sp_step id_order mt_get_admissible b_get mt_nchildren spec_get_ok spec_scan_len boltIterCap
+  cl_init step consume_log_ok log_chunks completions
   N.add N.mul N.of_nat N.to_nat N.eqb N.ltb N.div N.modulo.
